@@ -353,7 +353,7 @@ func value(t *rapid.T) string {
 }
 
 // SegInstance draws raw path segments admitted by the segment (one segment,
-// or 1..3 for a match-all).
+// or 1..3 - now and then 8..40 - for a match-all).
 func SegInstance(t *rapid.T, s model.Seg) []string {
 	k, _, capture := s.Classify()
 	switch k {
@@ -370,6 +370,18 @@ func SegInstance(t *rapid.T, s model.Seg) []string {
 			max = capture
 		}
 		n := rapid.IntRange(1, max).Draw(t, "nma")
+		if (capture <= 0 || capture > 3) && rapid.IntRange(0, 11).Draw(t, "longma") == 0 {
+			// "any number of segments": now and then a long run
+			hi := 40
+			if capture > 0 && capture < hi {
+				hi = capture
+			}
+			if hi >= 8 {
+				n = rapid.IntRange(8, hi).Draw(t, "nmalong")
+			} else {
+				n = hi
+			}
+		}
 		var out []string
 		for i := 0; i < n; i++ {
 			out = append(out, value(t))
